@@ -82,6 +82,10 @@ type parser struct {
 	col    int
 	onDeck byte
 	eof    bool
+
+	// position of the first character of the token read last
+	tokLine int
+	tokCol  int
 }
 
 // ParseValue parses a reader into a value where the input follows the SDL
@@ -198,6 +202,10 @@ func (p *parser) readToken() (string, error) {
 	if err != nil || b == 0 {
 		return "", err
 	}
+	// The first character of the token was the last one read. After the
+	// token the reader is one character further, maybe on the next line.
+	p.tokLine = p.line
+	p.tokCol = p.col
 	var buf bytes.Buffer
 	for {
 		if b, err = p.readByte(); err != nil || b == 0 {
